@@ -97,6 +97,21 @@ CLAIMED['C05'] = dict(
          'rules, control_action and parse_nested, so every other combinator propagates exceptions unchanged; each try_catch rule catches exactly the type it names; noexcept code never raises.',
     ref='5/C05')
 
+CLAIMED['C20'] = dict(
+    category='proof',
+    technique='language equivalence of alternating finite automata (PEG semantics of the type graph vs RFC ABNF), exact right-to-left determinisation',
+    text='The type graph of the five top-level URI rules (read from the front end, not from text) is given PEG semantics (ordered choice, possessive repetition, predicates, must = abort) '
+         'and compared with RFC 3986 Appendix A over ALL byte strings: the grammar is regular, so the exploration of the joint automaton is exhaustive and exact; a difference yields a shortest '
+         'witness string. This is the statement for every input, which sampled/mutated strings cannot give. The only throw sites reachable are normal<R>::raise (parse_error).',
+    ref='3.5, 5/C20',
+    note='Trusted base: clang 14 front end (type graph), the formal meaning of the internal rule templates in sa/typegraph.py (established separately by C01/C09/C10; maximum_rule enters by specification), '
+         'the AFA construction/determinisation in sa/lang.py, the transcription of RFC 3986 Appendix A in sa/spec/rfc3986.py, numpy.')
+CLAIMED['C14'] = dict(
+    technique='language equivalence of alternating finite automata (PEG semantics of the type graph vs RFC 8259 + RFC 3629), unfolded to a nesting depth',
+    text='json::text + eof is compared with RFC 8259 (with well-formed UTF-8 per RFC 3629) over all byte strings of array/object nesting depth <= D (quick D=1, thorough D=2): exhaustive exploration of '
+         'the joint automaton, shortest witness on difference. Never-throws: no must/raise/try_catch rule type in the grammar, no throw in the atoms it uses. Depth > D is not decided.',
+    ref='3.5, 5/C14')
+
 NOT_YET = 'check not built yet in this round (see DESIGN.md section 10 for the order of construction); no claim is made'
 
 NA_REASONS = {}
